@@ -167,7 +167,10 @@ _SEED = None
 
 def _worker(unit):
     try:
-        return _CHECK.run_unit(unit, _TIER, _SEED).export()
+        d = _CHECK.run_unit(unit, _TIER, _SEED).export()
+        for v in d['violations']:
+            v['unit'] = unit
+        return d
     except Exception:
         R = Result()
         R.violation('harness/unit-exception', {'unit': unit}, traceback.format_exc()[-1500:])
@@ -207,7 +210,11 @@ def write_replay(pid, sig, n, viol, seed, tier):
                  f'    chk = core.load_check({pid!r})\n'
                  '    R = core.Result()\n'
                  '    chk.setup(rep["tier"], rep["seed"])\n'
-                 '    chk.check_case(rep["case"], R, rep["seed"])\n'
+                 '    if isinstance(rep["case"], dict) and "unit_replay" in rep["case"]:\n'
+                 '        chk.units(rep["tier"], rep["seed"])\n'
+                 '        R = chk.run_unit(rep["case"]["unit_replay"], rep["tier"], rep["seed"])\n'
+                 '    else:\n'
+                 '        chk.check_case(rep["case"], R, rep["seed"])\n'
                  '    assert not R.violations, R.violations\n'
                  'if __name__ == "__main__":\n'
                  '    test_replay()\n')
@@ -225,6 +232,24 @@ def validate_evidence(path):
     return p.returncode == 0 or p.stderr[-800:]
 
 
+def unit_in_fresh_process(pid, tier, seed, unit):
+    """Signatures violated when ``unit`` is executed alone by a fresh interpreter (deterministic)."""
+    code = ('import json,sys\n'
+            'from mcx import core\n'
+            'core.bind_repo()\n'
+            'chk = core.load_check(sys.argv[1]); tier, seed = sys.argv[2], int(sys.argv[3])\n'
+            'chk.setup(tier, seed); chk.units(tier, seed)\n'
+            'R = chk.run_unit(json.loads(sys.argv[4]), tier, seed)\n'
+            'print("UNIT-SIGS " + json.dumps(sorted(R.viol_count)))\n')
+    env = dict(os.environ, PYTHONPATH=VERIF + os.pathsep + os.environ.get('PYTHONPATH', ''))
+    p = subprocess.run([sys.executable, '-W', 'ignore', '-c', code, pid, tier, str(seed), json.dumps(unit)],
+                       capture_output=True, text=True, env=env, cwd=VERIF)
+    for ln in p.stdout.splitlines():
+        if ln.startswith('UNIT-SIGS '):
+            return set(json.loads(ln[10:]))
+    return set()
+
+
 def run(pid, tier, seed, jobs=None, replay=None, quiet=False):
     global _CHECK, _TIER, _SEED
     t0 = time.time()
@@ -235,7 +260,12 @@ def run(pid, tier, seed, jobs=None, replay=None, quiet=False):
             rep = json.load(fh)
         chk.setup(rep.get('tier', tier), rep.get('seed', seed))
         R = Result()
-        chk.check_case(rep['case'], R, rep.get('seed', seed))
+        if isinstance(rep['case'], dict) and 'unit_replay' in rep['case']:
+            # the artefact is a whole unit (a fixed sequence of cases run by one fresh process)
+            chk.units(rep.get('tier', tier), rep.get('seed', seed))
+            R = chk.run_unit(rep['case']['unit_replay'], rep.get('tier', tier), rep.get('seed', seed))
+        else:
+            chk.check_case(rep['case'], R, rep.get('seed', seed))
         for v in R.violations:
             print(f"REPLAY-VIOLATION property={pid} sig={v['sig']} detail={v['detail']}")
         print('replay:', 'reproduced' if R.violations else 'no violation')
@@ -287,6 +317,14 @@ def run(pid, tier, seed, jobs=None, replay=None, quiet=False):
             if sig in {x['sig'] for x in R2.violations}:
                 reproduced, v = True, cand
                 break
+        if not reproduced and not sig.startswith('harness/'):
+            # the case may need what its unit executed before it in the same process (state kept on a class or
+            # module): a unit is a fixed sequence of cases, so re-run the whole unit from a FRESH interpreter
+            for cand in by_sig[sig][:3]:
+                if 'unit' in cand and sig in unit_in_fresh_process(pid, tier, seed, cand['unit']):
+                    reproduced = True
+                    v = dict(cand, case={'unit_replay': cand['unit'], 'first_failing_case': cand['case']})
+                    break
         if not reproduced:
             path = write_replay(pid, sig, 0, v, seed, tier)
             lines.append(f'HARNESS-ERROR property={pid} sig={sig} did not reproduce on replay '
